@@ -12,6 +12,20 @@ NOTE_COMMON = ('Trusted base: CPython, Hypothesis 6.168 as case generator, the h
 
 # id -> (design section, technique, level text, level note)
 CLAIMS = {
+    'C05': ('3/C05', 'model-based stateful generation (state-aware op histories incl. follow-up edits through inserted nodes) + list-operation sweep; structural-invariant oracle after every step',
+            'Exploration: thousands of edit histories over every operation family and an enumeration of every list operation shape on every '
+            'list-bearing field; the tree/store invariants are checked after each step on the root and on popped nodes. Right level: the defects '
+            'of this class (stale store, children out of order) are reached by 1-3 step histories of the right shape.',
+            NOTE_COMMON + ' Children are discovered from vars(model), order from iterating the store.'),
+    'C06': ('3/C06', 'state-aware generation of syntax-preserving edit programs + list-operation sweep; print -> re-parse -> semantic-digest comparison (round trip through the parser)',
+            'Exploration: after every step of generated syntax-preserving programs the document is printed, re-parsed and compared field by field '
+            'with the in-memory model. Right level: separator/pivot mistakes show on the first operation of the right shape; the sweep enumerates those shapes.',
+            NOTE_COMMON + ' The documented custom-value sign ambiguity and raw_string0/1/2 are excluded as the statement says.'),
+    'C10': ('3/C10', 'stateful histories through aliasing views vs Python list / ordered-dict reference models + bounded-exhaustive slice enumeration',
+            'Exploration: mutations through raw lists, filtered, string and mapping views (primed and lazy) compared with list / first-match dict '
+            'semantics and cross-checked view-against-raw after every step; every (start, stop, step) triple in a bounded cube enumerated. Right level: '
+            'index-table bugs depend only on argument shape and prior reads, both enumerable.',
+            NOTE_COMMON),
     'C01': ('3/C01', 'grammar-mirroring Hypothesis generator; round-trip oracle plus independent tokenisation (generator piece list) and per-sub-model slice checks',
             'Exploration: thousands of generated ledgers (all directive kinds, every layout-noise dimension, all parse targets, both attribution modes); '
             'print==input, store==input, every sub-model prints its slice, tokens equal the generator\'s own tokenisation. Right level because the '
